@@ -22,12 +22,56 @@ def build(pc, E, canary=None):
     pc.add_functions(E, TARGETS)
     if canary is not None:
         return
+    unprintable(pc, E)
     pc.assumptions += [
         'the outcome of executing a route is an uninterpreted function of the route within one request',
+        'A-wz-resp: constructing a Response / assigning .data does not raise for encodable text (exercised by the bounded '
+        'unprintable-messages suite)',
         'error-type constructors of the error handler (not_found_type etc.) do not raise',
         'user render_error functions return Responses (or raise)',
         'boltons ExceptionInfo.from_current()/repr never raise',
     ]
+
+
+MESSAGES = ['\udc80 lone surrogate', 'nul\x00byte', '\u00e9\u4e2d\U0001f600', 'x' * 200000, '{braces} %s %(k)s', '']
+
+
+def unprintable(pc, E):
+    """bounded stand-in (labelled bounded): uncaught exceptions with unprintable / huge / odd messages
+    still become complete 500 responses in every negotiated format (the Werkzeug response constructor
+    is an assumed contract in the K part; this exercises it)"""
+    import json
+    import os
+    from pyvc.run import HERE
+    n = 0
+    bad = []
+    for msg in MESSAGES:
+        for accept in (None, 'text/plain', 'text/html', 'application/json', 'application/xml', '*/*'):
+            for handler in ('default', 'debug', 'broken_render'):
+                case = {'routes': [{'pattern': '/a', 'behavior': 'raise', 'message': msg}], 'handler': handler,
+                        'request': {'path': '/a', 'accept': accept}, 'check': ['c08']}
+                n += 1
+                try:
+                    out = native('app_case.py', case, repo_root=E.repo.root)
+                except Exception as e:
+                    pc.errors.append('bounded stand-in (unprintable messages) crashed: %r' % (e,))
+                    return
+                if out.get('fails'):
+                    bad.append({'case': case, 'why': out.get('why')})
+    pc.bounded.append({'what': 'uncaught exception messages {lone surrogate, NUL, non-BMP, 200 kB, format directives, empty} '
+                               'x 6 Accept values x 3 error handlers: a complete 500 response each time',
+                       'bound': 'fixed list', 'cases': n, 'failures': len(bad), 'label': 'bounded'})
+    if bad:
+        fn = 'replays/C08-bounded-unprintable.json'
+        os.makedirs(os.path.join(HERE, 'replays'), exist_ok=True)
+        c0 = dict(bad[0]['case'])
+        if len(c0['routes'][0].get('message', '')) > 1000:
+            c0['routes'][0]['message'] = c0['routes'][0]['message'][:1000]
+        with open(os.path.join(HERE, fn), 'w') as f:
+            json.dump({'property': 'C08', 'obligation': 'C08.B/unprintable-messages (bounded stand-in)',
+                       'concretised_input': {'script': 'app_case.py', 'case': bad[0]['case']},
+                       'failing_cases': [b['why'] for b in bad[:5]]}, f, indent=1)
+        pc.violations.append(('C08.B/unprintable-messages', fn, True))
 
 
 def search(pc, it):
